@@ -51,43 +51,50 @@ Proof.
   rewrite E1, E2, E3. clear - X1 X2 Y1 Y2 Z1 Z2 Dx Dy Dz. lia.
 Qed.
 
-Lemma background_block_len c : cfg_ok c -> zlen (background_block c) = block_bytes c.
-Proof.
-  intros (Kx & Ky & Kz & Hv). unfold background_block, zlen. rewrite repeat_length.
-  assert (0 <= block_bytes c); [|lia]. unfold block_bytes, block_voxels. repeat apply Z.mul_nonneg_nonneg; lia.
-Qed.
 
-Lemma put_blocks_spec c g data : cfg_ok c -> geom_ok g -> gshape g = Vol3d -> block_aligned c g = true ->
+Lemma put_blocks_spec c g data f : cfg_ok c -> geom_ok g -> gshape g = Vol3d -> block_aligned c g = true ->
   data_len_ok c g (gw g * bpv c) data ->
   forall bl st, store_ok c st -> (forall b, In b bl -> meets g (bsz c) b) ->
-  exists st', put_blocks c g (gw g * bpv c) data st (map (fun b => (b, true)) bl) = Ok st' /\ store_ok c st'
-    /\ (forall b, listed b bl = false -> st_get st' b = st_get st b)
-    /\ (forall p ch, 0 <= ch < bpv c -> listed (block_of (bsz c) p) bl = true ->
+  exists st', put_blocks c g (gw g * bpv c) data st (map (fun b => (b, f b)) bl) = Ok st' /\ store_ok c st'
+    /\ (forall b, listed b bl && f b = false -> st_get st' b = st_get st b)
+    /\ (forall p ch, 0 <= ch < bpv c -> listed (block_of (bsz c) p) bl = true -> f (block_of (bsz c) p) = true ->
           stored_byte c st' p ch = Some (nthZ data (pos c g (gw g * bpv c) p ch))).
 Proof.
   intros Hc Hg Sh Al Hd. induction bl as [|b t IH]; intros st Hst Hm; cbn [map put_blocks].
   - exists st. split; [reflexivity|]. split; [assumption|]. split; [reflexivity|]. intros p ch _ F. discriminate F.
   - assert (Hm' : forall b0, In b0 t -> meets g (bsz c) b0) by (intros; apply Hm; now right).
-    set (blk := match st_get st b with Some v => v | None => background_block c end).
-    assert (Lb : zlen blk = block_bytes c).
-    { unfold blk. destruct (st_get st b) eqn:E; [exact (Hst b _ E)|apply background_block_len; assumption]. }
-    destruct (block_xfer c g (gw g * bpv c) b data blk Hc Hg (Hm b (or_introl eq_refl)) (stride_ok_exact c g Hc Hg) Hd Lb)
-      as (_ & (b' & E' & L' & P' & Q')).
-    rewrite E'.
-    assert (Hst1 : store_ok c (st_put st b b')).
-    { intros k v. rewrite st_get_put. destruct (pt_eqb b k); [intro X; inversion X; subst; lia|apply Hst]. }
-    destruct (IH (st_put st b b') Hst1 Hm') as (st' & E & S & F & W).
-    exists st'. split; [exact E|]. split; [exact S|]. split.
-    + intros k Hk. unfold listed in Hk. cbn [existsb] in Hk. apply orb_false_iff in Hk as (K1 & K2).
-      rewrite (F k K2), st_get_put.
-      destruct (pt_eqb b k) eqn:Ebk; [|reflexivity].
-      apply pt_eqb_true in Ebk. subst k. assert (pt_eqb b b = true) by (apply pt_eqb_true; reflexivity). congruence.
-    + intros p ch Hch Hl. destruct (listed (block_of (bsz c) p) t) eqn:Lt; [apply W; assumption|].
-      unfold listed in Hl. cbn [existsb] in Hl. fold (listed (block_of (bsz c) p) t) in Hl. rewrite Lt, orb_false_r in Hl.
-      apply pt_eqb_true in Hl. unfold stored_byte. rewrite (F _ Lt), st_get_put, Hl.
-      replace (pt_eqb b b) with true by (symmetry; apply pt_eqb_true; reflexivity).
-      f_equal. apply P'; [|assumption]. apply in_part_iff; [assumption|]. split; [|assumption].
-      eapply aligned_block_inside; eauto. apply Hm. now left.
+    destruct (f b) eqn:Fb.
+    + set (blk := match st_get st b with Some v => v | None => background_block c end).
+      assert (Lb : zlen blk = block_bytes c).
+      { unfold blk. destruct (st_get st b) eqn:E; [exact (Hst b _ E)|apply background_block_len; assumption]. }
+      destruct (block_xfer c g (gw g * bpv c) b data blk Hc Hg (Hm b (or_introl eq_refl)) (stride_ok_exact c g Hc Hg) Hd Lb)
+        as (_ & (b' & E' & L' & P' & Q')).
+      rewrite E'.
+      assert (Hst1 : store_ok c (st_put st b b')).
+      { intros k v. rewrite st_get_put. destruct (pt_eqb b k); [intro X; inversion X; subst; lia|apply Hst]. }
+      destruct (IH (st_put st b b') Hst1 Hm') as (st' & E & S & F & W).
+      exists st'. split; [exact E|]. split; [exact S|]. split.
+      * intros k Hk. unfold listed in Hk. cbn [existsb] in Hk. fold (listed k t) in Hk.
+        destruct (pt_eqb k b) eqn:Ekb.
+        { apply pt_eqb_true in Ekb. subst k. rewrite Fb in Hk. discriminate Hk. }
+        cbn [orb] in Hk. rewrite (F k Hk), st_get_put.
+        destruct (pt_eqb b k) eqn:Ebk; [|reflexivity]. apply pt_eqb_true in Ebk. subst k.
+        assert (pt_eqb b b = true) by (apply pt_eqb_true; reflexivity). congruence.
+      * intros p ch Hch Hl Hf. destruct (listed (block_of (bsz c) p) t) eqn:Lt; [apply W; assumption|].
+        unfold listed in Hl. cbn [existsb] in Hl. fold (listed (block_of (bsz c) p) t) in Hl. rewrite Lt, orb_false_r in Hl.
+        apply pt_eqb_true in Hl. unfold stored_byte. rewrite (F _ ltac:(rewrite Lt; reflexivity)), st_get_put, Hl.
+        replace (pt_eqb b b) with true by (symmetry; apply pt_eqb_true; reflexivity).
+        f_equal. apply P'; [|assumption]. apply in_part_iff; [assumption|]. split; [|assumption].
+        eapply aligned_block_inside; eauto. apply Hm. now left.
+    + destruct (IH st Hst Hm') as (st' & E & S & F & W).
+      exists st'. split; [exact E|]. split; [exact S|]. split.
+      * intros k Hk. apply F. unfold listed in Hk. cbn [existsb] in Hk. fold (listed k t) in Hk.
+        destruct (pt_eqb k b) eqn:Ekb; cbn [orb] in Hk; [|exact Hk].
+        apply pt_eqb_true in Ekb. subst k. destruct (listed b t); [rewrite Fb; reflexivity|reflexivity].
+      * intros p ch Hch Hl Hf. apply W; [assumption| |assumption].
+        unfold listed in Hl. cbn [existsb] in Hl. fold (listed (block_of (bsz c) p) t) in Hl.
+        destruct (pt_eqb (block_of (bsz c) p) b) eqn:Ep; [|exact Hl].
+        apply pt_eqb_true in Ep. rewrite Ep, Fb in Hf. discriminate Hf.
 Qed.
 
 Definition in_geomb (g : geom) (p : pt) : bool :=
@@ -100,101 +107,46 @@ Lemma stored_byte_ext c st st' p ch :
   st_get st' (block_of (bsz c) p) = st_get st (block_of (bsz c) p) -> stored_byte c st' p ch = stored_byte c st p ch.
 Proof. unfold stored_byte. now intros ->. Qed.
 
-(* POST raw/0_1_2 of a block-aligned subvolume (no ROI) *)
-Lemma post_raw_ok c s off size data :
+(* POST raw/0_1_2 of a block-aligned subvolume, with or without an ROI: exactly the voxels of the
+   volume whose block is inside the ROI take the posted bytes *)
+Lemma post_raw_ok c s off size data roi :
   let g := G Vol3d off (px size) (py size) (pz size) in
   cfg_ok c -> geom_ok g -> block_aligned c g = true -> zlen data = bpv c * g_numvoxels g -> store_ok c (blocks s) ->
-  exists s', post_raw c s off size data None = Ok s' /\ store_ok c (blocks s')
+  roi_wf roi ->
+  exists s', post_raw c s off size data roi = Ok s' /\ store_ok c (blocks s')
     /\ ext s' = adjust_points (ext s) off (gend g)
     /\ forall p ch, 0 <= ch < bpv c ->
          stored_byte c (blocks s') p ch
-         = if in_geomb g p then Some (nthZ data (pos c g (gw g * bpv c) p ch)) else stored_byte c (blocks s) p ch.
+         = if in_geomb g p && roi_test roi (block_of (bsz c) p)
+           then Some (nthZ data (pos c g (gw g * bpv c) p ch)) else stored_byte c (blocks s) p ch.
 Proof.
-  intros g Hc Hg Al Ld Hst. unfold post_raw. fold g.
+  intros g Hc Hg Al Ld Hst Hr. unfold post_raw. fold g.
   assert (Sz : 1 <= px size /\ 1 <= py size /\ 1 <= pz size) by (destruct Hg as (_ & A & B & C); cbn in A, B, C; lia).
   replace (negb ((1 <=? px size) && (1 <=? py size) && (1 <=? pz size))) with false by lia.
   rewrite Ld, Z.eqb_refl. cbn [negb].
   assert (Kz : (px (bsz c) =? 0) || (py (bsz c) =? 0) || (pz (bsz c) =? 0) = false) by (destruct Hc as (A & B & C & _); lia).
   rewrite Kz, Al. cbn [negb].
-  destruct (geom_blocks_spec c g Hc Hg) as (bl & E & M). rewrite E. cbn [roi_flags].
+  destruct (geom_blocks_spec c g Hc Hg) as (bl & E & M & Sb). rewrite E. rewrite (roi_flags_test roi bl Hr Sb).
   assert (Hd : data_len_ok c g (gw g * bpv c) data).
   { unfold data_len_ok. cbn [gshape g gw gh gd]. rewrite Ld. unfold g_numvoxels. cbn [gshape g gw gh gd]. lia. }
-  destruct (put_blocks_spec c g data Hc Hg eq_refl Al Hd bl (blocks s) Hst (fun b Hb => proj1 (M b) Hb))
+  destruct (put_blocks_spec c g data (roi_test roi) Hc Hg eq_refl Al Hd bl (blocks s) Hst (fun b Hb => proj1 (M b) Hb))
     as (st' & E' & S' & F & W).
   rewrite E'. eexists. split; [reflexivity|]. cbn [blocks ext]. split; [exact S'|]. split.
   { rewrite g_end_eq by assumption. reflexivity. }
-  intros p ch Hch. destruct (in_geomb g p) eqn:Ig.
-  - apply in_geomb_ok in Ig. apply W; [assumption|]. unfold listed. apply existsb_exists.
-    exists (block_of (bsz c) p). split; [apply M; apply meets_of_voxel; assumption|apply pt_eqb_true; reflexivity].
+  intros p ch Hch. destruct (in_geomb g p) eqn:Ig; cbn [andb].
+  - apply in_geomb_ok in Ig.
+    assert (Li : listed (block_of (bsz c) p) bl = true).
+    { unfold listed. apply existsb_exists. exists (block_of (bsz c) p).
+      split; [apply M; apply meets_of_voxel; assumption|apply pt_eqb_true; reflexivity]. }
+    destruct (roi_test roi (block_of (bsz c) p)) eqn:Rt; [apply W; assumption|].
+    apply stored_byte_ext. apply F. rewrite Rt. apply andb_false_r.
   - apply stored_byte_ext. apply F. destruct (listed (block_of (bsz c) p) bl) eqn:Li; [|reflexivity]. exfalso.
     unfold listed in Li. apply existsb_exists in Li as (b & Hb & Eb). apply pt_eqb_true in Eb.
     assert (in_geom g p) by (eapply (aligned_block_inside c g b p); eauto; apply M; assumption).
     apply in_geomb_ok in H. congruence.
 Qed.
 
-(* ---- histories ---- *)
-Record wreq : Type := WR { wq_off : pt; wq_size : pt; wq_data : bytes }.
-Definition wq_geom (w : wreq) : geom := G Vol3d (wq_off w) (px (wq_size w)) (py (wq_size w)) (pz (wq_size w)).
-Definition wq_ok (c : cfg) (w : wreq) : Prop :=
-  geom_ok (wq_geom w) /\ block_aligned c (wq_geom w) = true /\ zlen (wq_data w) = bpv c * g_numvoxels (wq_geom w).
-
-Fixpoint apply_writes (c : cfg) (s : state) (ws : list wreq) : res state :=
-  match ws with
-  | [] => Ok s
-  | w :: t => match post_raw c s (wq_off w) (wq_size w) (wq_data w) None with
-              | Ok s' => apply_writes c s' t
-              | Err => Err
-              | Panic => Panic
-              end
-  end.
-
-(* byte ch of voxel p in the LAST write of the (chronological) list that covers p *)
-Fixpoint last_write (c : cfg) (ws : list wreq) (p : pt) (ch : Z) : option N :=
-  match ws with
-  | [] => None
-  | w :: t => match last_write c t p ch with
-              | Some v => Some v
-              | None => if in_geomb (wq_geom w) p
-                        then Some (nthZ (wq_data w) (pos c (wq_geom w) (gw (wq_geom w) * bpv c) p ch))
-                        else None
-              end
-  end.
-
-Lemma apply_writes_spec c ws : cfg_ok c -> Forall (wq_ok c) ws -> forall s, store_ok c (blocks s) ->
-  exists s', apply_writes c s ws = Ok s' /\ store_ok c (blocks s')
-    /\ forall p ch, 0 <= ch < bpv c ->
-         stored_byte c (blocks s') p ch
-         = match last_write c ws p ch with Some v => Some v | None => stored_byte c (blocks s) p ch end.
-Proof.
-  intros Hc. induction 1 as [|w t (Hg & Al & Ld) Ht IH]; intros s Hst; cbn [apply_writes last_write].
-  - exists s. split; [reflexivity|]. split; [assumption|]. reflexivity.
-  - destruct (post_raw_ok c s (wq_off w) (wq_size w) (wq_data w) Hc Hg Al Ld Hst) as (s1 & E1 & S1 & _ & W1).
-    rewrite E1. destruct (IH s1 S1) as (s' & E & S & W).
-    exists s'. split; [exact E|]. split; [exact S|]. intros p ch Hch. rewrite (W p ch Hch).
-    destruct (last_write c t p ch); [reflexivity|]. rewrite (W1 p ch Hch). fold (wq_geom w).
-    destruct (in_geomb (wq_geom w) p); reflexivity.
-Qed.
-
-Lemma store_ok_empty c : store_ok c [].
-Proof. intros b v H. discriminate H. Qed.
-
-(* read_after_writes: after any sequence of block-aligned writes, every voxel of every read
-   geometry (3d box of any alignment, XY / XZ / YZ slice) is the value of the last write covering
-   it, else the buffer's initial byte (the background once NewVoxels presets it) *)
-Lemma read_after_writes_l fill c ws g : cfg_ok c -> Forall (wq_ok c) ws -> geom_ok g ->
-  exists s buf, apply_writes c st0 ws = Ok s /\ get_raw fill c s g None = Ok buf
-    /\ zlen buf = bpv c * g_numvoxels g
-    /\ forall p ch, in_geom g p -> 0 <= ch < bpv c ->
-         nthZ buf (pos c g (gw g * bpv c) p ch)
-         = match last_write c ws p ch with Some v => v | None => init_byte fill c end.
-Proof.
-  intros Hc Hws Hg. destruct (apply_writes_spec c ws Hc Hws st0 (store_ok_empty c)) as (s & E & S & W).
-  destruct (get_raw_ok fill c s g Hc Hg S) as (buf & Eb & Lb & R).
-  exists s, buf. split; [exact E|]. split; [exact Eb|]. split; [exact Lb|].
-  intros p ch Hp Hch. rewrite (R p ch Hp Hch), (W p ch Hch).
-  destruct (last_write c ws p ch); reflexivity.
-Qed.
-
+(* ---- extents ---- *)
 (* ---- extents ---- *)
 Definition ple (a b : pt) : Prop := px a <= px b /\ py a <= py b /\ pz a <= pz b.
 Definition covers (e : extents) (a b : pt) : Prop :=
@@ -209,27 +161,8 @@ Proof.
   unfold covers, adjust_points, ple, pmin, pmax. destruct e as [[mn mx]|]; [|tauto]. unfold px, py, pz; cbn [fst snd]; lia.
 Qed.
 
-Lemma apply_writes_ext c ws : cfg_ok c -> Forall (wq_ok c) ws -> forall s, store_ok c (blocks s) ->
-  forall s', apply_writes c s ws = Ok s' ->
-  (forall a b, covers (ext s) a b -> covers (ext s') a b)
-  /\ forall w, In w ws -> covers (ext s') (wq_off w) (gend (wq_geom w)).
-Proof.
-  intros Hc. induction 1 as [|w t (Hg & Al & Ld) Ht IH]; intros s Hst s' E; cbn [apply_writes] in E.
-  - apply Ok_inj in E. subst s'. split; [auto|intros w []].
-  - destruct (post_raw_ok c s (wq_off w) (wq_size w) (wq_data w) Hc Hg Al Ld Hst) as (s1 & E1 & S1 & X1 & _).
-    rewrite E1 in E. destruct (IH s1 S1 s' E) as (K & A). split.
-    + intros a b Cab. apply K. rewrite X1. apply adjust_keeps. exact Cab.
-    + intros w' [<-|Hw']; [|apply A; exact Hw'].
-      apply K. rewrite X1. apply adjust_covers.
-      pose proof (size3_pos _ Hg) as S3. unfold ple, gend, wq_geom, px, py, pz in *. cbn [goff fst snd] in *. lia.
-Qed.
 
-(* extents_cover: after any sequence of block-aligned writes the advertised extents contain
-   every written box *)
-Lemma extents_cover_l c ws s : cfg_ok c -> Forall (wq_ok c) ws -> apply_writes c st0 ws = Ok s ->
-  forall w, In w ws -> covers (ext s) (wq_off w) (gend (wq_geom w)).
-Proof. intros Hc Hws E. exact (proj2 (apply_writes_ext c ws Hc Hws st0 (store_ok_empty c) s E)). Qed.
-
+(* ---- ROI-restricted writes ---- *)
 (* ---- ROI-restricted writes ---- *)
 Lemma inside_fast_sound b : forall spans cur ins, inside_fast b spans = (cur, ins) ->
   (exists pre, spans = pre ++ cur) /\ (ins = true -> in_spans b cur = true).
@@ -373,18 +306,256 @@ Qed.
 
 (* ---- the code as it stood before the three repairs ---- *)
 (* C17-1: the response buffer is zeroed, so an unwritten voxel reads 0 although Background = 7 *)
-Lemma nofill_refuted :
-  exists c ws g p, cfg_ok c /\ Forall (wq_ok c) ws /\ geom_ok g /\ in_geom g p /\ last_write c ws p 0 = None /\
-    exists s buf, apply_writes c st0 ws = Ok s /\ get_raw false c s g None = Ok buf
-      /\ nthZ buf (pos c g (gw g * bpv c) p 0) <> bg_byte c.
+
+(* the voxels of a block and their place in it *)
+Lemma bidx_voxel c b p ch : cfg_ok c -> block_of (bsz c) p = b -> 0 <= ch < bpv c ->
+  exists K, 0 <= K < block_voxels c /\ bidx c (pminus p (bmin c b)) + ch = K * bpv c + ch.
 Proof.
-  exists (C (4, 4, 4) 1 7), [WR (-4, 0, 4) (4, 4, 4) (repeat 9%N 64)], (G Vol3d (-5, 0, 4) 6 2 1), (-5, 0, 4).
+  destruct c as [[[kx ky] kz] v bg pat fx]. destruct b as [[bx by_] bz]. destruct p as [[x y] z].
+  intros (Kx & Ky & Kz & Hv) Eb Hch. unfold block_of, bidx, pminus, bmin, block_voxels, px, py, pz in *; cbn [fst snd bsz bpv] in *.
+  inversion Eb as [[E1 E2 E3]].
+  pose proof (proj2 (div_block_iff kx bx x ltac:(lia)) E1) as Dx. pose proof (proj2 (div_block_iff ky by_ y ltac:(lia)) E2) as Dy.
+  pose proof (proj2 (div_block_iff kz bz z ltac:(lia)) E3) as Dz.
+  rewrite E1, E2, E3. clear E1 E2 E3 Eb.
+  exists (((z - bz * kz) * ky + (y - by_ * ky)) * kx + (x - bx * kx)). split; [|ring].
+  pose proof (chan_bound (z - bz * kz) (y - by_ * ky) kz ky ltac:(lia) ltac:(lia)) as B1.
+  pose proof (chan_bound ((z - bz * kz) * ky + (y - by_ * ky)) (x - bx * kx) (kz * ky) kx B1 ltac:(lia)). lia.
+Qed.
+
+Lemma nthZ_background_block c b p ch : cfg_ok c -> block_of (bsz c) p = b -> 0 <= ch < bpv c ->
+  nthZ (background_block c) (bidx c (pminus p (bmin c b)) + ch) = bg_at c ch.
+Proof.
+  intros Hc Eb Hch. destruct (bidx_voxel c b p ch Hc Eb Hch) as (K & HK & E). rewrite E.
+  unfold background_block. apply nthZ_bg_tile; assumption.
+Qed.
+
+(* POST blocks (repaired code): the voxels of the posted blocks take the posted bytes *)
+Definition in_stream (c : cfg) (start : pt) (span : Z) (p : pt) : bool :=
+  let b := block_of (bsz c) p in
+  (py b =? py start) && (pz b =? pz start) && (px start <=? px b) && (px b <? px start + span).
+Definition stream_pos (c : cfg) (start : pt) (p : pt) (ch : Z) : Z :=
+  let b := block_of (bsz c) p in (px b - px start) * block_bytes c + bidx c (pminus p (bmin c b)) + ch.
+
+Lemma post_blocks_stored c s start span data : cfg_ok c -> 1 <= span <= 524288 ->
+  - 524288 <= px start <= 524288 -> - 524288 <= py start <= 524288 -> - 524288 <= pz start <= 524288 ->
+  zlen data = span * block_bytes c -> store_ok c (blocks s) ->
+  exists s', post_blocks true c s start span data = Ok s' /\ store_ok c (blocks s')
+    /\ covers (ext s') (bmin c start) (pminus (bmin c (px start + span, py start + 1, pz start + 1)) (1, 1, 1))
+    /\ (forall a b, covers (ext s) a b -> covers (ext s') a b)
+    /\ forall p ch, 0 <= ch < bpv c ->
+         stored_byte c (blocks s') p ch
+         = if in_stream c start span p then Some (nthZ data (stream_pos c start p ch)) else stored_byte c (blocks s) p ch.
+Proof.
+  intros Hc Hsp Hx Hy Hz Hl Hst.
+  destruct (post_blocks_ok c s start span data Hc Hsp Hx Hy Hz Hl) as (s' & E & _ & Cv).
+  exists s'. split; [exact E|].
+  assert (Bb : 1 <= block_bytes c).
+  { destruct Hc as (A & B & C & D). unfold block_bytes, block_voxels. nia. }
+  unfold post_blocks in E. replace (span <? 1) with false in E by lia.
+  destruct (post_blocks_loop_spec (Z.to_nat (block_bytes c)) ltac:(lia) (Z.to_nat span) (blocks s) start data)
+    as (st' & El & G & F); try lia.
+  { unfold zlen in Hl. nia. }
+  rewrite El in E. apply Ok_inj in E. subst s'. cbn [blocks ext] in *.
+  assert (Chunk : forall i, (i < Z.to_nat span)%nat ->
+            zlen (firstn (Z.to_nat (block_bytes c)) (skipn (i * Z.to_nat (block_bytes c)) data)) = block_bytes c).
+  { intros i Hi. unfold zlen. rewrite firstn_length, skipn_length. unfold zlen in Hl. nia. }
+  split.
+  { intros b v Hb.
+    destruct ((py b =? py start) && (pz b =? pz start) && (px start <=? px b) && (px b <? px start + span)) eqn:In.
+    - specialize (G (Z.to_nat (px b - px start)) ltac:(lia)).
+      replace (px start + Z.of_nat (Z.to_nat (px b - px start)), py start, pz start) with b in G
+        by (destruct b as [[? ?] ?]; unfold px, py, pz in *; cbn [fst snd] in *; f_equal; [f_equal|]; lia).
+      rewrite G in Hb. inversion Hb; subst. apply Chunk. lia.
+    - rewrite F in Hb; [exact (Hst b v Hb)|].
+      intros i Hi Eq. rewrite Eq in In. unfold px, py, pz in In; cbn [fst snd] in In. lia. }
+  split; [exact Cv|]. split; [intros a b Cab; apply adjust_keeps; exact Cab|].
+  intros p ch Hch. unfold in_stream, stream_pos. set (b := block_of (bsz c) p).
+  destruct ((py b =? py start) && (pz b =? pz start) && (px start <=? px b) && (px b <? px start + span)) eqn:In.
+  - unfold stored_byte. fold b.
+    specialize (G (Z.to_nat (px b - px start)) ltac:(lia)).
+    replace (px start + Z.of_nat (Z.to_nat (px b - px start)), py start, pz start) with b in G
+      by (destruct b as [[? ?] ?]; unfold px, py, pz in *; cbn [fst snd] in *; f_equal; [f_equal|]; lia).
+    rewrite G. f_equal.
+    destruct (bidx_voxel c b p ch Hc eq_refl Hch) as (K & HK & EK).
+    assert (Kb : 0 <= bidx c (pminus p (bmin c b)) + ch < block_bytes c).
+    { rewrite EK. unfold block_bytes. destruct Hc as (_ & _ & _ & Hv). nia. }
+    rewrite nthZ_firstn by lia. rewrite nthZ_skipn by lia. f_equal. nia.
+  - apply stored_byte_ext. fold b. apply F. intros i Hi Eq. rewrite Eq in In. unfold px, py, pz in In; cbn [fst snd] in In. lia.
+Qed.
+
+(* ---- histories: raw writes (optionally ROI-restricted) and block streams, in any order ---- *)
+Inductive wop : Type :=
+| WRaw (off size : pt) (data : bytes) (roi : option (list span))
+| WBlk (start : pt) (span : Z) (data : bytes).
+
+Definition raw_geom (off size : pt) : geom := G Vol3d off (px size) (py size) (pz size).
+
+Definition wop_ok (c : cfg) (w : wop) : Prop :=
+  match w with
+  | WRaw off size data roi =>
+    geom_ok (raw_geom off size) /\ block_aligned c (raw_geom off size) = true
+    /\ zlen data = bpv c * g_numvoxels (raw_geom off size) /\ roi_wf roi
+  | WBlk start span data =>
+    1 <= span <= 524288 /\ - 524288 <= px start <= 524288 /\ - 524288 <= py start <= 524288
+    /\ - 524288 <= pz start <= 524288 /\ zlen data = span * block_bytes c
+  end.
+
+Definition apply_op (c : cfg) (s : state) (w : wop) : res state :=
+  match w with
+  | WRaw off size data roi => post_raw c s off size data roi
+  | WBlk start span data => post_blocks true c s start span data
+  end.
+Fixpoint apply_writes (c : cfg) (s : state) (ws : list wop) : res state :=
+  match ws with
+  | [] => Ok s
+  | w :: t => match apply_op c s w with
+              | Ok s' => apply_writes c s' t
+              | Err => Err
+              | Panic => Panic
+              end
+  end.
+
+(* byte ch of voxel p as write w sets it, if it does *)
+Definition op_byte (c : cfg) (w : wop) (p : pt) (ch : Z) : option N :=
+  match w with
+  | WRaw off size data roi =>
+    let g := raw_geom off size in
+    if in_geomb g p && roi_test roi (block_of (bsz c) p) then Some (nthZ data (pos c g (gw g * bpv c) p ch)) else None
+  | WBlk start span data =>
+    if in_stream c start span p then Some (nthZ data (stream_pos c start p ch)) else None
+  end.
+(* ... in the LAST write of the (chronological) list that sets it *)
+Fixpoint last_write (c : cfg) (ws : list wop) (p : pt) (ch : Z) : option N :=
+  match ws with
+  | [] => None
+  | w :: t => match last_write c t p ch with Some v => Some v | None => op_byte c w p ch end
+  end.
+
+(* the box a write extends the extents by *)
+Definition op_box (c : cfg) (w : wop) : pt * pt :=
+  match w with
+  | WRaw off size _ _ => (off, gend (raw_geom off size))
+  | WBlk start span _ => (bmin c start, pminus (bmin c (px start + span, py start + 1, pz start + 1)) (1, 1, 1))
+  end.
+
+Lemma apply_op_spec c s w : cfg_ok c -> wop_ok c w -> store_ok c (blocks s) ->
+  exists s', apply_op c s w = Ok s' /\ store_ok c (blocks s')
+    /\ covers (ext s') (fst (op_box c w)) (snd (op_box c w))
+    /\ (forall a b, covers (ext s) a b -> covers (ext s') a b)
+    /\ forall p ch, 0 <= ch < bpv c ->
+         stored_byte c (blocks s') p ch = match op_byte c w p ch with Some v => Some v | None => stored_byte c (blocks s) p ch end.
+Proof.
+  intros Hc Hw Hst. destruct w as [off size data roi|start span data]; cbn [apply_op op_byte op_box fst snd].
+  - destruct Hw as (Hg & Al & Ld & Hr).
+    destruct (post_raw_ok c s off size data roi Hc Hg Al Ld Hst Hr) as (s' & E & S & X & W).
+    exists s'. split; [exact E|]. split; [exact S|]. split.
+    { rewrite X. apply adjust_covers. pose proof (size3_pos _ Hg) as S3.
+      unfold ple, gend, raw_geom, px, py, pz in *. cbn [goff fst snd] in *. lia. }
+    split; [intros a b Cab; rewrite X; apply adjust_keeps; exact Cab|].
+    intros p ch Hch. rewrite (W p ch Hch). fold (raw_geom off size).
+    destruct (in_geomb (raw_geom off size) p && roi_test roi (block_of (bsz c) p)); reflexivity.
+  - destruct Hw as (Hsp & Hx & Hy & Hz & Hl).
+    destruct (post_blocks_stored c s start span data Hc Hsp Hx Hy Hz Hl Hst) as (s' & E & S & Cv & K & W).
+    exists s'. split; [exact E|]. split; [exact S|]. split; [exact Cv|]. split; [exact K|].
+    intros p ch Hch. rewrite (W p ch Hch). destruct (in_stream c start span p); reflexivity.
+Qed.
+
+Lemma apply_writes_spec c ws : cfg_ok c -> Forall (wop_ok c) ws -> forall s, store_ok c (blocks s) ->
+  exists s', apply_writes c s ws = Ok s' /\ store_ok c (blocks s')
+    /\ (forall a b, covers (ext s) a b -> covers (ext s') a b)
+    /\ (forall w, In w ws -> covers (ext s') (fst (op_box c w)) (snd (op_box c w)))
+    /\ forall p ch, 0 <= ch < bpv c ->
+         stored_byte c (blocks s') p ch
+         = match last_write c ws p ch with Some v => Some v | None => stored_byte c (blocks s) p ch end.
+Proof.
+  intros Hc. induction 1 as [|w t Hw Ht IH]; intros s Hst; cbn [apply_writes last_write].
+  - exists s. split; [reflexivity|]. split; [assumption|]. split; [auto|]. split; [intros w []|reflexivity].
+  - destruct (apply_op_spec c s w Hc Hw Hst) as (s1 & E1 & S1 & C1 & K1 & W1).
+    rewrite E1. destruct (IH s1 S1) as (s' & E & S & K & A & W).
+    exists s'. split; [exact E|]. split; [exact S|]. split; [intros a b Cab; apply K, K1, Cab|]. split.
+    + intros w' [<-|Hw']; [apply K, C1|apply A, Hw'].
+    + intros p ch Hch. rewrite (W p ch Hch). destruct (last_write c t p ch); [reflexivity|]. apply W1. exact Hch.
+Qed.
+
+Lemma store_ok_empty c : store_ok c [].
+Proof. intros b v H. discriminate H. Qed.
+
+Lemma nthZ_map0 (f : N -> N) l k : f 0%N = 0%N -> nthZ (map f l) k = f (nthZ l k).
+Proof.
+  intro F. unfold nthZ. destruct (k <? 0); [now rewrite F|].
+  rewrite <- F at 1. apply map_nth.
+Qed.
+
+(* what a read through ROI [roi] with attenuation [att] shows of a voxel whose last write put
+   byte lw there (None: never written): inside the ROI the byte; outside the background, or the
+   byte shifted right for one-byte voxels *)
+Definition shown (c : cfg) (roi : option (list span)) (att : Z) (lw : option N) (b : pt) (ch : Z) : N :=
+  match lw with
+  | None => bg_at c ch
+  | Some v => if roi_test roi b then v
+              else if att =? 0 then bg_at c ch
+              else if bpv c =? 1 then N.shiftr v (Z.to_N att) else bg_at c ch
+  end.
+
+Lemma view_of_stored c st roi att p ch : cfg_ok c -> 0 <= ch < bpv c ->
+  match view_byte c st (roi_test roi) att p ch with Some v => v | None => bg_at c ch end
+  = shown c roi att (stored_byte c st p ch) (block_of (bsz c) p) ch.
+Proof.
+  intros Hc Hch. unfold view_byte, stored_byte, shown. destruct (st_get st (block_of (bsz c) p)) as [blk|]; [|reflexivity].
+  destruct (roi_test roi (block_of (bsz c) p)); [reflexivity|].
+  destruct (att =? 0); [apply nthZ_background_block; auto|].
+  destruct (bpv c =? 1); [|reflexivity]. unfold scaled_block. apply nthZ_map0. apply N.shiftr_0_l.
+Qed.
+
+(* read_after_writes: after ANY sequence of block-aligned raw writes (with or without ROI) and block
+   streams, EVERY read (3d box of any alignment, XY / XZ / YZ slice; with or without ROI and
+   attenuation) succeeds and shows, for every voxel, the last write that set it, else the background *)
+Lemma read_after_writes_l c ws g roi att : cfg_ok c -> Forall (wop_ok c) ws -> geom_ok g -> roi_wf roi ->
+  exists s buf, apply_writes c st0 ws = Ok s /\ get_raw_att true c s g roi att = Ok buf
+    /\ zlen buf = bpv c * g_numvoxels g
+    /\ forall p ch, in_geom g p -> 0 <= ch < bpv c ->
+         nthZ buf (pos c g (gw g * bpv c) p ch) = shown c roi att (last_write c ws p ch) (block_of (bsz c) p) ch.
+Proof.
+  intros Hc Hws Hg Hr. destruct (apply_writes_spec c ws Hc Hws st0 (store_ok_empty c)) as (s & E & S & _ & _ & W).
+  destruct (get_raw_roi_ok true c s g roi att Hc Hg S Hr) as (buf & Eb & Lb & R).
+  exists s, buf. split; [exact E|]. split; [exact Eb|]. split; [exact Lb|].
+  intros p ch Hp Hch. rewrite (R p ch Hp Hch). unfold init_at.
+  rewrite (view_of_stored c (blocks s) roi att p ch Hc Hch), (W p ch Hch).
+  destruct (last_write c ws p ch); reflexivity.
+Qed.
+
+(* the plain case: no ROI on the read *)
+Lemma read_after_writes_plain c ws g : cfg_ok c -> Forall (wop_ok c) ws -> geom_ok g ->
+  exists s buf, apply_writes c st0 ws = Ok s /\ get_raw true c s g None = Ok buf
+    /\ zlen buf = bpv c * g_numvoxels g
+    /\ forall p ch, in_geom g p -> 0 <= ch < bpv c ->
+         nthZ buf (pos c g (gw g * bpv c) p ch)
+         = match last_write c ws p ch with Some v => v | None => bg_at c ch end.
+Proof.
+  intros Hc Hws Hg. destruct (read_after_writes_l c ws g None 0 Hc Hws Hg I) as (s & buf & E & Eb & L & R).
+  exists s, buf. split; [exact E|]. split; [exact Eb|]. split; [exact L|]. intros p ch Hp Hch.
+  rewrite (R p ch Hp Hch). unfold shown. destruct (last_write c ws p ch); reflexivity.
+Qed.
+
+(* extents_cover *)
+Lemma extents_cover_l c ws s : cfg_ok c -> Forall (wop_ok c) ws -> apply_writes c st0 ws = Ok s ->
+  forall w, In w ws -> covers (ext s) (fst (op_box c w)) (snd (op_box c w)).
+Proof.
+  intros Hc Hws E. destruct (apply_writes_spec c ws Hc Hws st0 (store_ok_empty c)) as (s' & E' & _ & _ & A & _).
+  rewrite E in E'. apply Ok_inj in E'. subst s'. exact A.
+Qed.
+
+(* ---- the code as it stood before the repairs ---- *)
+(* C17-1: the response buffer is zeroed, so an unwritten voxel reads 0 although Background = 7 *)
+Lemma nofill_refuted :
+  exists c g p, cfg_ok c /\ geom_ok g /\ in_geom g p /\
+    exists buf, get_raw false c st0 g None = Ok buf /\ nthZ buf (pos c g (gw g * bpv c) p 0) <> bg_at c 0.
+Proof.
+  exists (C (4, 4, 4) 1 7 [7%N] false), (G Vol3d (-5, 0, 4) 6 2 1), (-5, 0, 4).
   split; [unfold cfg_ok, px, py, pz; cbn; lia|].
-  split; [repeat constructor; unfold geom_ok, px, py, pz; cbn; lia|].
   split; [unfold geom_ok, px, py, pz; cbn; lia|].
   split; [unfold in_geom, in_range, gend, g_size3, px, py, pz; cbn; lia|].
-  split; [vm_compute; reflexivity|].
-  eexists _, _. split; [vm_compute; reflexivity|]. split; [vm_compute; reflexivity|]. vm_compute. discriminate.
+  eexists. split; [vm_compute; reflexivity|]. vm_compute. discriminate.
 Qed.
 
 (* C17-2: POST blocks took Prod(BlockSize) bytes per block whatever the voxel width *)
@@ -392,7 +563,7 @@ Lemma post_blocks_orig_refuted :
   exists c start span data s, cfg_ok c /\ zlen data = span * block_bytes c
     /\ post_blocks false c st0 start span data = Ok s /\ get_blocks c s start span <> data.
 Proof.
-  exists (C (2, 2, 2) 2 0), (0, 0, 0), 1, (map N.of_nat (seq 1 16)).
+  exists (C (2, 2, 2) 2 0 [0%N; 0%N] true), (0, 0, 0), 1, (map N.of_nat (seq 1 16)).
   eexists. split; [unfold cfg_ok, px, py, pz; cbn; lia|]. split; [vm_compute; reflexivity|].
   split; [vm_compute; reflexivity|]. vm_compute. discriminate.
 Qed.
@@ -402,11 +573,26 @@ Lemma post_blocks_orig_extents_refuted :
   exists c start span data s, cfg_ok c /\ zlen data = span * block_bytes c
     /\ post_blocks false c st0 start span data = Ok s /\ ext s = None.
 Proof.
-  exists (C (2, 2, 2) 1 0), (1, -1, 0), 1, (map N.of_nat (seq 1 8)).
+  exists (C (2, 2, 2) 1 0 [0%N] true), (1, -1, 0), 1, (map N.of_nat (seq 1 8)).
   eexists. split; [unfold cfg_ok, px, py, pz; cbn; lia|]. split; [vm_compute; reflexivity|].
   split; vm_compute; reflexivity.
 Qed.
 
-(* with the buffer preset (C17-1) the initial byte is the background byte *)
-Lemma init_byte_fill c : init_byte true c = bg_byte c.
-Proof. reflexivity. Qed.
+(* C17-4: for voxels wider than one byte the code had no single background: BackgroundBlock and
+   NewVoxels wrote 0, GET blocks repeated the Background byte; neither is the voxel whose value is
+   Background (here uint16, Background 7: bytes 7 0) *)
+Lemma wide_background_refuted :
+  exists c g p, cfg_ok c /\ bgfix c = false /\ geom_ok g /\ in_geom g p /\
+    (exists buf, get_raw true c st0 g None = Ok buf
+       /\ nthZ buf (pos c g (gw g * bpv c) p 0) <> nth 0 (bgpat c) 0%N)
+    /\ get_blocks c st0 (0, 0, 0) 1 <> concat (repeat (bgpat c) (Z.to_nat (block_voxels c))).
+Proof.
+  exists (C (2, 2, 2) 2 7 [7%N; 0%N] false), (G Vol3d (0, 0, 0) 2 1 1), (0, 0, 0).
+  split; [unfold cfg_ok, px, py, pz; cbn; lia|]. split; [reflexivity|].
+  split; [unfold geom_ok, px, py, pz; cbn; lia|].
+  split; [unfold in_geom, in_range, gend, g_size3, px, py, pz; cbn; lia|].
+  split; [eexists; split; [vm_compute; reflexivity|vm_compute; discriminate]|vm_compute; discriminate].
+Qed.
+(* with the repair the background voxel is the pattern, in every path *)
+Lemma bg_at_fixed c ch : bgfix c = true -> bg_at c ch = nth (Z.to_nat ch) (bgpat c) 0%N.
+Proof. unfold bg_at. now intros ->. Qed.
